@@ -396,7 +396,16 @@ pub fn deprecated_document() -> impl Strategy<Value = (String, String)> {
         2 => (format!("<strike>{inner}</strike>"), format!("<s>{inner}</s>")),
         _ => (format!("<p><strike><font color=\"red\">{inner}</font></strike></p>"), format!("<p><s><span data-mx-color=\"red\">{inner}</span></s></p>")),
     });
-    prop::collection::vec(piece, 1..4).prop_map(|v| {
+    // each piece may sit inside an element that is merely not allowed (its children are kept in
+    // place), nested twice, or inside an allowed block
+    let wrapped = (piece, 0u8..6).prop_map(|((i, o), w)| match w {
+        0 | 1 => (i, o),
+        2 => (format!("<center>{i}</center>"), o),
+        3 => (format!("<section><center>{i}</center></section>"), o),
+        4 => (format!("<x-unknown>{i}tail</x-unknown>"), format!("{o}tail")),
+        _ => (format!("<div>{i}</div>"), format!("<div>{o}</div>")),
+    });
+    prop::collection::vec(wrapped, 1..4).prop_map(|v| {
         let mut i = String::new();
         let mut o = String::new();
         for (a, b) in v {
